@@ -205,7 +205,7 @@ def ring_check(hyps, goal, timeout_s=20):
             while changed:
                 changed = False
                 for name, a in list(names.items()):
-                    if z3.is_app(a) and a.decl().name() == "sqrt" and ("sq", name) not in relations:
+                    if z3.is_app(a) and a.decl().name() == "u_sqrt" and ("sq", name) not in relations:
                         relations.append(("sq", name))
                         arg = _to_sympy(a.children()[0], syms, atoms)
                         rel.append((syms[a.get_id()] ** 2, arg))
@@ -227,12 +227,12 @@ def ring_check(hyps, goal, timeout_s=20):
                 num = sp.expand(num2)
             # trig: replace cos^2 -> 1 - sin^2
             for name, a in atoms.items():
-                if z3.is_app(a) and a.decl().name() == "cos":
+                if z3.is_app(a) and a.decl().name() == "u_cos":
                     c = syms[a.get_id()]
                     sarg = a.children()[0]
                     s_sym = None
                     for n2, a2 in atoms.items():
-                        if z3.is_app(a2) and a2.decl().name() == "sin" and a2.children()[0].get_id() == sarg.get_id():
+                        if z3.is_app(a2) and a2.decl().name() == "u_sin" and a2.children()[0].get_id() == sarg.get_id():
                             s_sym = syms[a2.get_id()]
                     if s_sym is not None:
                         p = sp.Poly(sp.expand(num), c)
